@@ -97,7 +97,7 @@ impl ManiaGradualPerformance {
     pub fn nth(&mut self, state: ManiaScoreState, n: usize) -> Option<ManiaPerformanceAttributes> {
         let performance = self
             .difficulty
-            .nth(n)?
+            .nth_clamped(n)?
             .performance()
             .state(state)
             .difficulty(self.difficulty.difficulty.clone())
